@@ -9,7 +9,7 @@ import hashlib, os, re, shutil, subprocess, sys, time
 from concurrent.futures import ThreadPoolExecutor
 
 VERIF = os.path.dirname(os.path.dirname(os.path.abspath(__file__)))
-ROOT = "/root/verif-scratch/seeded"
+ROOT = os.environ.get("SEEDED_ROOT", "/root/verif-scratch/seeded")
 
 def run(args):
     src, name, tier = args
